@@ -3,6 +3,8 @@
 From Coq Require Import List NArith Bool.
 From Coq Require Import ExtrOcamlBasic.
 From Rustun Require Import Codec.Filter Codec.DecodeLoop Codec.FilterCase.
+From Rustun Require Import Base.Tlv Agent.Reasm Agent.ReasmDrive Agent.ReasmRs.
 Extraction Language OCaml.
 Extraction "model.ml"
-  FilterCase.filter_case FilterCase.monitor_C09 FilterCase.monitor_C18_all.
+  FilterCase.filter_case FilterCase.monitor_C09 FilterCase.monitor_C18_all
+  ReasmRs.run_log ReasmRs.monitor_C16.
